@@ -168,8 +168,48 @@ func checkKindsEquality(r *Run, gp *packages.Package) {
 		is, eq bool
 	}
 	var uses []use
-	for _, fd := range kindsMethods(gp) {
+	// a method that looks kinds up through a sibling (ContainsOneOf, a private indexOf) uses that sibling's equality
+	methods := kindsMethods(gp)
+	byObj := map[types.Object]*ast.FuncDecl{}
+	for _, fd := range methods {
+		byObj[info.Defs[fd.Name]] = fd
+	}
+	own := map[*ast.FuncDecl][2]bool{}
+	for _, fd := range methods {
+		var is, eq bool
+		ast.Inspect(fd.Body, func(x ast.Node) bool {
+			switch t := x.(type) {
+			case *ast.BinaryExpr:
+				if (t.Op == token.EQL || t.Op == token.NEQ) && isKind(t.X) && isKind(t.Y) && !isNilIdent(info, ast.Unparen(t.X)) && !isNilIdent(info, ast.Unparen(t.Y)) {
+					eq = true
+				}
+			case *ast.CallExpr:
+				if sel, ok := t.Fun.(*ast.SelectorExpr); ok && sel.Sel.Name == "Is" && isKind(sel.X) {
+					is = true
+				}
+			}
+			return true
+		})
+		own[fd] = [2]bool{is, eq}
+	}
+	viaSibling := map[*ast.FuncDecl]bool{}
+	for round := 0; round < 4; round++ {
+		for _, fd := range methods {
+			ast.Inspect(fd.Body, func(x ast.Node) bool {
+				if call, ok := x.(*ast.CallExpr); ok {
+					if sib := byObj[calleeOf(info, call)]; sib != nil && sib != fd && (own[sib][0] || viaSibling[sib]) {
+						viaSibling[fd] = true
+					}
+				}
+				return true
+			})
+		}
+	}
+	for _, fd := range methods {
 		u := use{method: fd.Name.Name}
+		if viaSibling[fd] {
+			u.is = true
+		}
 		ast.Inspect(fd.Body, func(x ast.Node) bool {
 			switch t := x.(type) {
 			case *ast.BinaryExpr:
